@@ -1,3 +1,8 @@
 import Capnp.Spec.Packing
-import Capnp.Model.Packed
 import Capnp.Spec.Encoding
+import Capnp.Model.Packed
+import Capnp.Model.Read
+import Capnp.Props.C01
+import Capnp.Props.C02
+import Capnp.Props.C03
+import Capnp.Props.C13
